@@ -884,6 +884,7 @@ func (r *Relayer) newFragmentSender(dstRelay frameReceiver, cr *lazyCallReq, ori
 func (rfs *relayFragmentSender) newFragment(initial bool, checksum Checksum) (*writableFragment, error) {
 	frame := rfs.framePool.Get()
 	frame.Header.ID = rfs.callReq.Header.ID
+	frame.Header.reserved1 = 0
 	if initial {
 		frame.Header.messageType = messageTypeCallReq
 	} else {
